@@ -39,6 +39,7 @@ type (
 		loopIndex     int
 		tryCatchIndex int
 		iotaVal       int
+		compiling     bool
 		opts          *CompilerOptions
 		trace         io.Writer
 		indent        int
@@ -315,8 +316,32 @@ func (c *Compiler) Bytecode() *Bytecode {
 	}
 }
 
+// compilerBailout is the panic value used to abort compilation when an
+// instruction cannot be encoded, e.g. an operand exceeds its width. It is
+// recovered by the outermost Compile call and reported as a compile error.
+type compilerBailout struct {
+	node parser.Node
+	err  error
+}
+
 // Compile compiles parser.Node and builds Bytecode.
-func (c *Compiler) Compile(node parser.Node) error {
+func (c *Compiler) Compile(node parser.Node) (err error) {
+	if c.parent == nil && !c.compiling {
+		c.compiling = true
+		defer func() {
+			c.compiling = false
+			if r := recover(); r != nil {
+				b, ok := r.(compilerBailout)
+				if !ok {
+					panic(r)
+				}
+				if b.node == nil {
+					b.node = node
+				}
+				err = c.error(b.node, ErrSymbolLimit.NewError(b.err.Error()))
+			}
+		}()
+	}
 	if c.trace != nil {
 		if node != nil {
 			defer untracec(tracec(c, fmt.Sprintf("%s (%s)",
@@ -456,7 +481,7 @@ func (c *Compiler) changeOperand(opPos int, operand ...int) {
 	inst := make([]byte, 0, 8)
 	inst, err := MakeInstruction(inst, op, operand...)
 	if err != nil {
-		panic(err)
+		panic(compilerBailout{err: err})
 	}
 	c.replaceInstruction(opPos, inst)
 }
@@ -535,7 +560,7 @@ func (c *Compiler) emit(node parser.Node, opcode Opcode, operands ...int) int {
 	inst := make([]byte, 0, 8)
 	inst, err := MakeInstruction(inst, opcode, operands...)
 	if err != nil {
-		panic(err)
+		panic(compilerBailout{node: node, err: err})
 	}
 
 	pos := c.addInstruction(inst)
